@@ -1,3 +1,4 @@
+import AdeuModel.Lemmas.LGrow
 import AdeuModel.Lemmas.RevIds
 import AdeuModel.Lemmas.ComGrow
 import AdeuModel.Lemmas.Engine
@@ -77,5 +78,20 @@ theorem C09_comment_ids_stay_unique (d : Document) (author date : Str) (edits : 
   comment_ids_stay_unique d author date edits hn
 
 example : strNat? (natStr 41) = some 41 := strNat?_natStr 41
+
+/-- **The comment parts stay linked.**  If in the opened document entry `i` of comments.xml, commentsExtended,
+commentsIds and commentsExtensible belong together (paragraph id of the comment's last paragraph = id of the extended
+entry = key of the ids entry; durable id of the ids entry = key of the extensible entry), then so they do after any
+batch: every comment a run adds brings exactly one entry in each part, with matching ids, at the same position. -/
+theorem C09_comment_parts_stay_linked (d : Document) (author date : Str) (edits : List HEdit) (h : DocLinked d) :
+    DocLinked (Doc.applyEdits (Sess.open d author date) edits).1.doc :=
+  comment_parts_stay_linked d author date edits h
+
+example : DocLinked { (default : Document) with
+    comments := [{ id := "1".toList, author := none, date := none, initials := none,
+                   paras := [{ paraId := some "AA".toList, text := [] }], legacyParent := none, doneAttr := none }],
+    commentsEx := [{ paraId := some "AA".toList, parent := none, done := none }],
+    commentsIds := [("AA".toList, "D1".toList)], commentsCex := [("D1".toList, "NOW".toList)] } := by
+  simp [DocLinked, linked4]
 
 end Adeu.Props.C09
